@@ -536,3 +536,49 @@ func dropNativeOnly(ids []string) []string {
 	}
 	return r
 }
+
+// replayMain re-runs one stored counterexample natively against the current /repo tree.
+// exit 1 = reproduced (prints the VIOLATION line), 0 = not reproduced, 2 = could not run.
+func replayMain(args []string) int {
+	if len(args) < 1 {
+		fatal("usage: symgo replay <replay.json>")
+	}
+	b, err := os.ReadFile(args[0])
+	if err != nil {
+		fatal("%v", err)
+	}
+	in := &ReplayIn{}
+	if err := json.Unmarshal(b, in); err != nil {
+		fatal("%v", err)
+	}
+	l := load()
+	short := in.Harness[:strings.Index(in.Harness, ".")]
+	res, log, err := nativeReplay(l, short, map[string]*ReplayIn{"replay": in}, in.Property == "C19")
+	out := res["replay"]
+	if out == nil {
+		fmt.Printf("could not run the replay: %v\n%s\n", err, tail(log, 2000))
+		return 2
+	}
+	fmt.Printf("native run: end=%s failed=%v msg=%s\n", out.End, out.Failed, firstLine(out.Msg))
+	repro := false
+	if in.Expect != nil {
+		switch {
+		case in.Expect.Kind == "assert":
+			for _, f := range out.Failed {
+				if f == in.Expect.Assert {
+					repro = true
+				}
+			}
+		case strings.HasPrefix(in.Expect.Kind, "panic"):
+			repro = out.End == "panic"
+		case in.Expect.Kind == "global-write" || in.Expect.Kind == "pool":
+			repro = strings.Contains(log, "DATA RACE") || len(out.Failed) > 0
+		}
+	}
+	if repro {
+		fmt.Printf("VIOLATION property=%s replay=%s\n", in.Property, args[0])
+		return 1
+	}
+	fmt.Println("not reproduced on the current tree")
+	return 0
+}
